@@ -241,6 +241,7 @@ class Evaluator:
         self.max_depth = max_depth
         self.keyed_watch = keyed_watch
         self.incomplete = []  # places the evaluation could not follow (what it collected may be partial)
+        self.unk_deps = {}  # local left unknown -> the input symbols its defining expressions can depend on (None: anything)
         self.by_path = {}
         for bid, h in prog.hir.items():
             if isinstance(h, dict) and h.get("path") and h.get("body"):
@@ -289,6 +290,72 @@ class Evaluator:
         return ("obj", name)
 
     # -- evaluation -------------------------------------------------------
+    def _note_unknown(self, names, expr, env):
+        """a local is left unknown by `expr`: record which input symbols that expression can depend on - the symbols of
+        the values of the locals it mentions (closure bodies included); anything, when it mentions an object (through
+        which any attribute can be read) or a local that is itself unknown without such a record"""
+        deps = set()
+        for q in hirq.exprs(expr, "Path"):
+            l = (q.get("res") or {}).get("local")
+            if l is None or l not in env:
+                continue  # bound inside the expression (closure parameter, inner let)
+            v = env[l]
+            if v is None:
+                d = self.unk_deps.get(l)
+                if d is None:
+                    deps = None
+                    break
+                deps |= d
+                continue
+            c = canon(v)
+            if "?" in c or (not is_form(v) and v[0] in ("obj", "closure", "struct", "__queue__")):
+                if not is_form(v) and v[0] == "obj" and v[1].startswith("@"):
+                    deps.add(v[1])
+                    continue
+                deps = None
+                break
+            deps |= set(re.findall(r"[@$A-Za-z_][\w.$@]*", c))
+        for nm in names:
+            if nm in self.unk_deps and (self.unk_deps[nm] is None or deps is None):
+                self.unk_deps[nm] = None
+            elif nm in self.unk_deps:
+                self.unk_deps[nm] = self.unk_deps[nm] | deps
+            else:
+                self.unk_deps[nm] = None if deps is None else set(deps)
+
+    def _may_reach_watched(self, *paths):
+        """can a call of one of the watched names happen inside this (unfollowed) function?  Decided on the MIR call
+        graph; True when the function is not found there (nothing is known about it)"""
+        names = {w for w in self.watch if w and w != "-"}
+        if not names:
+            return False  # nothing is collected: what the function returns is an opaque term either way
+        cache = self.__dict__.setdefault("_mrw", {})
+        key = tuple(paths)
+        if key in cache:
+            return cache[key]
+        bodies = []
+        for d in paths:
+            for q in (d, re.sub(r"::<[^>]*>$", "", d)):
+                bodies += self.prog.by_path.get(q, [])
+        if not bodies:
+            cache[key] = True
+            return True
+        from .prog import Callee
+
+        res = False
+        for bid in self.prog.reachable_from(bodies):
+            bd = self.prog.bodies.get(bid)
+            if bd is None:
+                continue
+            for _bb, t in bd.calls():
+                if "fn" in t and Callee(t["fn"]).path.split("::")[-1] in names:
+                    res = True
+                    break
+            if res:
+                break
+        cache[key] = res
+        return res
+
     def _bind(self, pat, val, env, counter=None):
         p = pat.get("p")
         if p == "bind":
@@ -375,6 +442,24 @@ class Evaluator:
                 if known and val[0] == "some":
                     return False
                 return None
+            if "Ctor(Struct" in str((pat.get("res") or {}).get("dk", "")) and p == "tstruct":
+                # a tuple struct taken apart (`Size(w, h)`): irrefutable, each name is that positional field
+                base = None
+                if known and val[0] == "obj":
+                    base = val[1]
+                elif is_form(val) and len(val) == 1 and ONE not in val and list(val.values())[0] == 1:
+                    base = list(val)[0]
+                res_ = []
+                for i, q in enumerate(subs):
+                    if known and val[0] == "struct" and str(i) in val[1]:
+                        res_.append(self._match_pat(q, val[1][str(i)], env))
+                    elif base is not None:
+                        res_.append(self._match_pat(q, ("obj", f"{base}.{i}"), env))
+                    else:
+                        res_.append(self._match_pat(q, None, env))
+                if any(r is False for r in res_):
+                    return False
+                return True if all(r is True for r in res_) and (base is not None or (known and val[0] == "struct")) else None
             if known and val[0] == "variant":
                 if val[1] != name:
                     return False
@@ -825,11 +910,15 @@ class Evaluator:
                 if m is False:
                     self.eval(s["els"], env, st)
                 return None
+            if v is None and isinstance(s.get("init"), dict):
+                self._note_unknown([q["name"] for q in hirq.walk(s["pat"]) if isinstance(q, dict) and q.get("p") == "bind"], s["init"], env)
             self._bind(s["pat"], v, env)
             return None
         if k == "Assign":
             l = s["l"]
             v = self.eval(s["r"], env, st)
+            if v is None and l.get("k") == "Path" and (l.get("res") or {}).get("local"):
+                self._note_unknown([l["res"]["local"]], s["r"], env)
             if l.get("k") == "Unary" and l.get("op") == "Deref" and (l["x"].get("res") or {}).get("local") == "self":
                 st["self_after"] = v
                 env["self"] = v
@@ -1090,6 +1179,19 @@ class Evaluator:
                 if acc is None:
                     return None
             return acc
+        if name in ("any", "all") and recv is not None and not is_form(recv) and recv[0] == "tup" and len(n["args"]) == 1:
+            # over a list whose items are known: decided when every item's answer is (or one answer settles it)
+            cl = args[0] if isinstance(args[0], tuple) and args[0] and args[0][0] == "closure" else n["args"][0]
+            unknown = False
+            for item in recv[1]:
+                r = self._apply(cl, [item], env, st)
+                if r is None or is_form(r) or r[0] != "bool":
+                    unknown = True
+                    continue
+                if r[1] == (name == "any"):
+                    return ("bool", name == "any")
+            if not unknown:
+                return ("bool", name == "all")
         if name in ("find_map", "find") and recv is not None and not is_form(recv) and recv[0] == "tup" and len(n["args"]) == 1:
             # over a list whose items are known: the first item for which the closure yields Some / true
             cl = args[0] if isinstance(args[0], tuple) and args[0] and args[0][0] == "closure" else n["args"][0]
@@ -1119,6 +1221,19 @@ class Evaluator:
                 if name == "and_then":
                     return r
                 return ("some", r)
+        if name in ("ok_or", "ok_or_else") and rty.startswith("std::option::Option") and recv is not None:
+            # Option -> Result: a Result is represented by its Ok payload
+            if not is_form(recv) and recv[0] == "some":
+                return recv[1]
+            if not is_form(recv) and recv[0] == "none":
+                return ("err",)
+        if name == "zip" and len(args) == 1 and rty.startswith("std::option::Option") and recv is not None and not is_form(recv) and recv[0] in ("some", "none"):
+            # Option::zip: both present, or nothing
+            a0 = args[0]
+            if recv[0] == "none" or (a0 is not None and not is_form(a0) and a0[0] == "none"):
+                return ("none",)
+            if a0 is not None and not is_form(a0) and a0[0] == "some":
+                return ("some", ("tup", [recv[1], a0[1]]))
         if name in ("is_some", "is_none") and recv is not None and not is_form(recv) and recv[0] in ("some", "none"):
             return ("bool", (recv[0] == "some") == (name == "is_some"))
         if name in ("map", "and_then") and recv is not None and rty.startswith("std::result::Result") and len(n["args"]) == 1 and n["args"][0].get("k") == "Closure" and not (not is_form(recv) and recv[0] in ("err", "none")):
@@ -1153,7 +1268,7 @@ class Evaluator:
                 if sub["self"] is not None and n["recv"].get("k") == "Path" and (n["recv"].get("res") or {}).get("local"):
                     env[n["recv"]["res"]["local"]] = sub["self"]
                 return r
-        if d.startswith(self.inline_prefixes) and d not in self.opaque and self.watch and name not in self.watch and name not in TRANSPARENT and name not in self.transparent and (st["depth"] >= self.max_depth or (d not in self.by_path and re.sub(r"::<[^>]*>$", "", d) not in self.by_path and n.get("def", "") not in self.by_path)) and not _plain_accessor(name):
+        if d.startswith(self.inline_prefixes) and d not in self.opaque and self.watch and name not in self.watch and name not in TRANSPARENT and name not in self.transparent and (st["depth"] >= self.max_depth or (d not in self.by_path and re.sub(r"::<[^>]*>$", "", d) not in self.by_path and n.get("def", "") not in self.by_path)) and not _plain_accessor(name) and self._may_reach_watched(d, n.get("def", "")):
             self.incomplete.append(f"call of {d} at line {n.get('line')} not followed (depth / no source-level body)")
         # opaque local call: an atom over its operands.  Successive calls of a stateful method on the same receiver
         # (an iterator's next(), pop ...) are different values: they are numbered
